@@ -1,5 +1,6 @@
-"""Tracing recipe for C16: set_targets of both multiplane loss classes and slice_rgbd_targets, executed
-symbolically on a 2x2 image with 1 or 3 channels (real variables x_ch_y_x, depth d_y_x, positions p_k)."""
+"""Tracing recipe for C16: set_targets, get_targets and add_defocus_blur of both multiplane loss classes and
+slice_rgbd_targets, executed symbolically on a 2x2 image with 1 or 3 channels (real variables x_ch_y_x,
+depth d_y_x, positions p_k, multiplier mult)."""
 from types import SimpleNamespace
 import numpy as np
 from tracer import shim
@@ -9,10 +10,14 @@ H = W = 2
 CLASSES = (('multiplane_loss', 'ml'), ('perceptual_multiplane_loss', 'pl'))
 CONFIGS = [(1, 1), (1, 2), (1, 3), (3, 1), (3, 3)]          # (channels, number of planes)
 SLICE_CONFIGS = [(1, 1), (3, 2), (1, 3)]            # (channels, number of planes N; N+1 positions)
+# add_defocus_blur: (channels, planes, planes whose `sum(plane) > 0` guard is FALSE on the traced path)
+DEFOCUS_CONFIGS = [(1, 2, ()), (1, 3, ()), (3, 2, ()), (1, 3, (1,))]
+DEFOCUS_TAGS = (('multiplane_loss', 'df'), ('perceptual_multiplane_loss', 'dp'))
+BLUR_SIZE = 3
 DARGS = shim.names('d', (H, W))
-TIE_STAGE1 = ['C16_TieA', 'C16_TieB', 'C16_TieC', 'C16_TieD', 'C16_TieE', 'C16_TieF', 'C16_TieG']
+TIE_STAGE1 = ['C16_TieA', 'C16_TieB', 'C16_TieC'] + ['C16_Tie%s' % c for c in 'DEFGHIJK']
 TIE_STAGE2 = ['C16_TieProps']
-SAMPLE_DEF = 'ml_c3n3_focus_1_0_1'
+SAMPLE_DEF = 'ml_c3n3_gt_focus_1_0_1'
 
 
 def xargs(C):
@@ -23,29 +28,69 @@ def pargs(N):
     return ['p_%d' % k for k in range(N + 1)]
 
 
+def dname(tag, C, n, empty=()):
+    return '%s_c%dn%d%s' % (tag, C, n, ''.join('e%d' % j for j in empty))
+
+
+def _extend(ns):
+    """names of torch that refactorings of these functions use; all are re-expressed with operations the
+    shim already has (kept here so that tracer/shim.py stays untouched)"""
+    t = ns['torch'].__dict__
+    t.setdefault('eq', lambda a, b: shim.wrap(a) == b)
+    t.setdefault('ne', lambda a, b: shim.wrap(a) != b)
+    t.setdefault('lt', lambda a, b: shim.wrap(a) < b)
+    t.setdefault('le', lambda a, b: shim.wrap(a) <= b)
+    t.setdefault('gt', lambda a, b: shim.wrap(a) > b)
+    t.setdefault('ge', lambda a, b: shim.wrap(a) >= b)
+    t.setdefault('multiply', lambda a, b: a * b)
+    return ns
+
+
+def _emit_planes(g, pre, C, n, args, me):
+    for y in range(H):
+        for x in range(W):
+            g.add('%s_q_%d_%d' % (pre, y, x), args, me.target_depth[y, x])
+            for ch in range(C):
+                for i in range(n):
+                    g.add('%s_mask_%d_%d_%d_%d' % (pre, i, ch, y, x), args, me.masks[i, ch, y, x])
+
+
 def trace():
     g = Gen16()
     for cls, tag in CLASSES:
         for C, n in CONFIGS:
-            ns = shim.base_namespace()
-            shim.load('odak/learn/wave/loss.py', ['set_targets'], ns, cls=cls)
+            ns = _extend(shim.base_namespace())
+            shim.load('odak/learn/wave/loss.py', ['set_targets', 'get_targets'], ns, cls=cls)
             me = SimpleNamespace(target_image=shim.sym('x', (C, H, W)), target_depth=shim.sym('d', (H, W)),
-                                 number_of_planes=n, device='cpu')
+                                 number_of_planes=n, device='cpu', multiplier=shim.var('mult'))
             ns['set_targets'](me)
             assert me.targets.shape == (n, C, H, W) and me.masks.shape == (n, C, H, W), (me.targets.shape, me.masks.shape)
             assert me.focus_target.shape == (C, H, W) and me.target_depth.shape == (H, W), (me.focus_target.shape, me.target_depth.shape)
             args = xargs(C) + DARGS
-            pre = '%s_c%dn%d' % (tag, C, n)
+            pre = dname(tag, C, n)
+            _emit_planes(g, pre, C, n, args, me)
             for y in range(H):
                 for x in range(W):
-                    g.add('%s_q_%d_%d' % (pre, y, x), args, me.target_depth[y, x])
                     for ch in range(C):
                         g.add('%s_focus_%d_%d_%d' % (pre, ch, y, x), args, me.focus_target[ch, y, x])
                         for i in range(n):
-                            g.add('%s_mask_%d_%d_%d_%d' % (pre, i, ch, y, x), args, me.masks[i, ch, y, x])
                             g.add('%s_target_%d_%d_%d_%d' % (pre, i, ch, y, x), args, me.targets[i, ch, y, x])
+            # the observation point of the property: what get_targets hands out (scheme 'naive')
+            out = ns['get_targets'](me)
+            if len(out) != 3:
+                raise shim.TraceError('get_targets returns %d values' % len(out))
+            t_out, f_out, d_out = out
+            assert t_out.shape == (n, C, H, W) and f_out.shape == (C, H, W) and d_out.shape == (H, W)
+            gargs = args + ['mult']
+            for y in range(H):
+                for x in range(W):
+                    g.add('%s_gt_depth_%d_%d' % (pre, y, x), gargs, d_out[y, x])
+                    for ch in range(C):
+                        g.add('%s_gt_focus_%d_%d_%d' % (pre, ch, y, x), gargs, f_out[ch, y, x])
+                        for i in range(n):
+                            g.add('%s_gt_target_%d_%d_%d_%d' % (pre, i, ch, y, x), gargs, t_out[i, ch, y, x])
     for C, N in SLICE_CONFIGS:
-        ns = shim.base_namespace()
+        ns = _extend(shim.base_namespace())
         shim.load('odak/learn/perception/util.py', ['slice_rgbd_targets'], ns)
         pos = [shim.wrap(np.array(shim.var('p_%d' % k), dtype=object)) for k in range(N + 1)]   # 0-d tensors
         targets, masks = ns['slice_rgbd_targets'](shim.sym('x', (C, H, W)), shim.sym('d', (H, W)), pos)
@@ -58,130 +103,17 @@ def trace():
                     for i in range(N):
                         g.add('%s_mask_%d_%d_%d_%d' % (pre, i, ch, y, x), args, masks[i, ch, y, x])
                         g.add('%s_target_%d_%d_%d_%d' % (pre, i, ch, y, x), args, targets[i, ch, y, x])
-    return trace_defocus(g)
-
-
-def self_check(g, rng, make_loss, slice_fn, log=print):
-    """the traced terms, evaluated numerically, equal what the real code returns (inputs away from the
-    rounding / interval boundaries, where float64 evaluation of the term and float32 execution could differ)"""
-    import torch
-    bad = n = 0
-    for cls, tag in CLASSES:
-        for C, npl in CONFIGS:
-            for rep in range(3):
-                img = np.array([[[rng.randint(0, 256) / 256.0 for _ in range(W)] for _ in range(H)] for _ in range(C)])
-                dep = np.zeros((H, W))
-                for y in range(H):
-                    for x in range(W):
-                        k = rng.randint(0, max(npl - 1, 0))
-                        dep[y, x] = min(1.0, max(0.0, (k + rng.uniform(-0.4, 0.4)) / max(npl - 1, 1)))
-                L = make_loss(cls, torch.tensor(img, dtype=torch.float32), torch.tensor(dep, dtype=torch.float32), npl, 'naive')
-                targets, focus, _ = L.get_targets()
-                env = {}
-                for ch in range(C):
-                    for y in range(H):
-                        for x in range(W):
-                            env['x_%d_%d_%d' % (ch, y, x)] = img[ch, y, x]
-                for y in range(H):
-                    for x in range(W):
-                        env['d_%d_%d' % (y, x)] = float(np.float32(dep[y, x]))
-                pre = '%s_c%dn%d' % (tag, C, npl)
-                pairs = []
-                for y in range(H):
-                    for x in range(W):
-                        pairs.append(('%s_q_%d_%d' % (pre, y, x), float(L.target_depth[y, x])))
-                        for ch in range(C):
-                            pairs.append(('%s_focus_%d_%d_%d' % (pre, ch, y, x), float(focus[ch, y, x])))
-                            for i in range(npl):
-                                pairs.append(('%s_mask_%d_%d_%d_%d' % (pre, i, ch, y, x), float(L.masks[i, ch, y, x])))
-                                pairs.append(('%s_target_%d_%d_%d_%d' % (pre, i, ch, y, x), float(targets[i, ch, y, x])))
-                for name, val in pairs:
-                    n += 1
-                    if not close(g.evalf(name, env), val, 1e-6, 1e-7):
-                        bad += 1
-                        if bad <= 5: log('self-check mismatch', name, g.evalf(name, env), val)
-    for C, N in SLICE_CONFIGS:
-        for rep in range(3):
-            img = np.array([[[rng.randint(0, 256) / 256.0 for _ in range(W)] for _ in range(H)] for _ in range(C)])
-            pos = [0.0] + sorted(rng.randint(1, 15) / 16.0 for _ in range(N - 1)) + [1.0]
-            dep = np.array([[rng.choice([0.0, 1.0, rng.randint(0, 16) / 16.0, rng.randint(0, 64) / 64.0]) for _ in range(W)] for _ in range(H)])
-            targets, masks = slice_fn(torch.tensor(img, dtype=torch.float32), torch.tensor(dep, dtype=torch.float32), pos)
-            env = {'p_%d' % k: pos[k] for k in range(N + 1)}
-            for ch in range(C):
-                for y in range(H):
-                    for x in range(W):
-                        env['x_%d_%d_%d' % (ch, y, x)] = img[ch, y, x]
-            for y in range(H):
-                for x in range(W):
-                    env['d_%d_%d' % (y, x)] = dep[y, x]
-            pre = 'sl_c%dn%d' % (C, N)
-            for y in range(H):
-                for x in range(W):
-                    for ch in range(C):
-                        for i in range(N):
-                            for kind, arr in (('mask', masks), ('target', targets)):
-                                n += 1
-                                name = '%s_%s_%d_%d_%d_%d' % (pre, kind, i, ch, y, x)
-                                if not close(g.evalf(name, env), float(arr[i, ch, y, x]), 1e-6, 1e-7):
-                                    bad += 1
-                                    if bad <= 5: log('self-check mismatch', name, g.evalf(name, env), float(arr[i, ch, y, x]))
-    # add_defocus_blur: the operator `blur k p` is evaluated with odak's own kernel builder and torch's conv2d
-    from odak.learn.tools import generate_2d_gaussian
-
-    def blur_fn(k, p):
-        def f(a, b, c, d):
-            ker = generate_2d_gaussian([BLUR_SIZE, BLUR_SIZE], [k, k])
-            ker = (ker / torch.sum(ker)).unsqueeze(0).unsqueeze(0)
-            y = torch.nn.functional.conv2d(torch.tensor([[[[a, b], [c, d]]]], dtype=torch.float32), ker, padding='same')
-            return float(y[0, 0, p // 2, p % 2])
-        return f
-    for dcls, dtag in DEFOCUS_TAGS:
-      for C, npl in DEFOCUS_CONFIGS:
-        for rep in range(2):
-            img = np.array([[[rng.randint(1, 256) / 256.0 for _ in range(W)] for _ in range(H)] for _ in range(C)])
-            planes = list(range(npl)) + [rng.randint(0, npl - 1) for _ in range(H * W - npl)]
-            rng.shuffle(planes)                                   # every plane owns a pixel: all guards hold
-            dep = np.array([min(1.0, max(0.0, (k + rng.uniform(-0.4, 0.4)) / (npl - 1))) for k in planes]).reshape(H, W)
-            mult = rng.choice([1.0, 1.5, 0.5])
-            L = make_loss(dcls, torch.tensor(img, dtype=torch.float32), torch.tensor(dep, dtype=torch.float32), npl, 'defocus', BLUR_SIZE, 1.0, mult)
-            targets, _, _ = L.get_targets()
-            env = {'mult': mult}
-            for k in range(npl):
-                for p in range(H * W):
-                    env['blur %d%%nat %d%%nat' % (k, p)] = blur_fn(k, p)
-            for ch in range(C):
-                for y in range(H):
-                    for x in range(W):
-                        env['x_%d_%d_%d' % (ch, y, x)] = img[ch, y, x]
-            for y in range(H):
-                for x in range(W):
-                    env['d_%d_%d' % (y, x)] = float(np.float32(dep[y, x]))
-            pre = '%s_c%dn%d' % (dtag, C, npl)
-            for ch in range(C):
-                for j in range(npl):
-                    n += 1
-                    if not g.evalf('%s_guard_%d_%d' % (pre, j, ch), env) > 0:
-                        bad += 1; log('self-check: guard not positive', pre, j, ch)
-                for i in range(npl):
-                    for y in range(H):
-                        for x in range(W):
-                            n += 1
-                            name = '%s_target_%d_%d_%d_%d' % (pre, i, ch, y, x)
-                            if not close(g.evalf(name, env), float(targets[i, ch, y, x]), 1e-5, 1e-6):
-                                bad += 1
-                                if bad <= 5: log('self-check mismatch', name, g.evalf(name, env), float(targets[i, ch, y, x]))
-    return bad, n
+    for cls, tag in DEFOCUS_TAGS:
+        for C, n, empty in DEFOCUS_CONFIGS:
+            _trace_defocus(g, cls, tag, C, n, empty)
+    return g
 
 
 # ---------------------------------------------------------------- add_defocus_blur (conv2d as an operator)
 # The Gaussian kernel builder and conv2d are replaced by an uninterpreted operator
 #     blur k p a b c d  =  pixel p of conv2d([[a, b], [c, d]], normalised Gaussian kernel of integer sigma k, 'same')
-# and the data-dependent guard `if torch.sum(targets_cache[j]) > 0` is traced along the path where every
-# guard holds; the guard expressions are emitted too (the tie states the path condition on them).
-DEFOCUS_CONFIGS = [(1, 2), (1, 3)]      # (channels, planes); blur_ratio = 1.0 -> sigma level |i - j|
-BLUR_SIZE = 3
-
-
+# and the data-dependent guard `torch.sum(targets_cache[j]) > 0` is decided by the recipe: true for every plane
+# except the ones listed as empty.  The guard expressions are emitted; the tie states the path condition on them.
 class _Kernel:
     def __init__(s, nsigma):
         s.ns = (float(nsigma[0]), float(nsigma[1]))
@@ -189,21 +121,33 @@ class _Kernel:
             raise shim.TraceError('kernel with nsigma %r is outside the recipe' % (nsigma,))
     def to(s, *a, **k): return s
     def unsqueeze(s, d): return s
+    def sum(s, *a, **k): return 'kernel-sum'
+    def __getitem__(s, idx): return s
     def __truediv__(s, o):
         if o != 'kernel-sum': raise shim.TraceError('kernel divided by something that is not its own sum')
         return s
 
 
 class _Guard:
-    def __init__(s, e, log): s.e, s.log = e, log
+    def __init__(s, e, book): s.e, s.book = e, book
     def __gt__(s, o):
         if o != 0: raise shim.TraceError('guard compared with %r' % (o,))
-        s.log.append(s.e)
-        return True
+        return s.book.decide(s.e)
 
 
-def _defocus_namespace(guards):
-    ns = shim.base_namespace()
+class _GuardBook:
+    """guards in order of first appearance: channel-major, plane-minor"""
+    def __init__(s, n, empty): s.n, s.empty, s.seen = n, set(empty), []
+    def decide(s, e):
+        for k, f in enumerate(s.seen):
+            if f is e: break
+        else:
+            s.seen.append(e); k = len(s.seen) - 1
+        return (k % s.n) not in s.empty
+
+
+def _defocus_namespace(book):
+    ns = _extend(shim.base_namespace())
     t = ns['torch'].__dict__
     orig_sum = t['sum']
 
@@ -211,7 +155,7 @@ def _defocus_namespace(guards):
         if isinstance(x, _Kernel):
             return 'kernel-sum'
         if axis is None and dim is None:
-            return _Guard(orig_sum(x), guards)
+            return _Guard(orig_sum(x), book)
         return orig_sum(x, axis=axis, dim=dim, **k)
 
     def conv2d(inp, ker, padding=None, **k):
@@ -224,9 +168,12 @@ def _defocus_namespace(guards):
                 out[0, 0, y, x] = shim.E('uf', 'blur %d%%nat %d%%nat' % (int(ker.ns[0]), 2 * y + x), *[shim.E.lift(v) for v in a])
         return shim.wrap(out)
 
+    fn = SimpleNamespace(conv2d=conv2d)
     t['sum'] = tsum
-    t['nn'] = SimpleNamespace(functional=SimpleNamespace(conv2d=conv2d))
+    t['nn'] = SimpleNamespace(functional=fn)
+    ns['F'] = fn
     ns['generate_2d_gaussian'] = lambda kernel_length, nsigma, *a, **k: _Kernel(nsigma)
+    ns['dict'] = dict
     return ns
 
 
@@ -244,41 +191,138 @@ class Gen16(Gen):
         return '\n\n'.join(out)
 
 
-DEFOCUS_TAGS = (('multiplane_loss', 'df'), ('perceptual_multiplane_loss', 'dp'))
+def _trace_defocus(g, cls, tag, C, n, empty):
+    book = _GuardBook(n, empty)
+    ns = _defocus_namespace(book)
+    shim.load('odak/learn/wave/loss.py', ['set_targets', 'add_defocus_blur', 'get_targets'], ns, cls=cls)
+    me = SimpleNamespace(target_image=shim.sym('x', (C, H, W)), target_depth=shim.sym('d', (H, W)),
+                         number_of_planes=n, device='cpu', target_blur_size=BLUR_SIZE, blur_ratio=1.0,
+                         multiplier=shim.var('mult'))
+    ns['set_targets'](me)
+    ns['add_defocus_blur'](me)
+    t_out, f_out, d_out = ns['get_targets'](me)
+    assert t_out.shape == (n, C, H, W) and f_out.shape == (C, H, W), (t_out.shape, f_out.shape)
+    if len(book.seen) != C * n:
+        raise shim.TraceError('%d distinct plane-sum guards, expected %d' % (len(book.seen), C * n))
+    args = xargs(C) + DARGS + ['mult']
+    pre = dname(tag, C, n, empty)
+    _emit_planes(g, pre, C, n, args, me)
+    for ch in range(C):
+        for j in range(n):
+            g.add('%s_guard_%d_%d' % (pre, j, ch), args, book.seen[ch * n + j])
+    for ch in range(C):
+        for y in range(H):
+            for x in range(W):
+                g.add('%s_focus_%d_%d_%d' % (pre, ch, y, x), args, f_out[ch, y, x])
+                for i in range(n):
+                    g.add('%s_target_%d_%d_%d_%d' % (pre, i, ch, y, x), args, t_out[i, ch, y, x])
 
 
-def trace_defocus(g):
-    for cls, tag in DEFOCUS_TAGS:
-        _trace_defocus(g, cls, tag)
-    return g
+# ---------------------------------------------------------------- numeric self-check of the translator
+def self_check(g, rng, make_loss, slice_fn, log=print):
+    """the traced terms, evaluated numerically, equal what the real code returns (inputs away from the
+    rounding / interval boundaries, where float64 evaluation of the term and float32 execution could differ)"""
+    import torch
+    bad = n = 0
 
+    def cmp(name, env, val, rt=1e-6, at=1e-7):
+        nonlocal bad, n
+        n += 1
+        got = g.evalf(name, env)
+        if not close(got, val, rt, at):
+            bad += 1
+            if bad <= 5: log('self-check mismatch', name, got, val)
 
-def _trace_defocus(g, cls, tag):
-    for C, n in DEFOCUS_CONFIGS:
-        guards = []
-        ns = _defocus_namespace(guards)
-        shim.load('odak/learn/wave/loss.py', ['set_targets', 'add_defocus_blur'], ns, cls=cls)
-        me = SimpleNamespace(target_image=shim.sym('x', (C, H, W)), target_depth=shim.sym('d', (H, W)),
-                             number_of_planes=n, device='cpu', target_blur_size=BLUR_SIZE, blur_ratio=1.0,
-                             multiplier=shim.var('mult'))
-        ns['set_targets'](me)
-        ns['add_defocus_blur'](me)
-        assert me.targets.shape == (n, C, H, W), me.targets.shape
-        assert len(guards) == C * n * n, len(guards)
-        args = xargs(C) + DARGS + ['mult']
-        pre = '%s_c%dn%d' % (tag, C, n)
-        k = 0
+    def image_env(img, dep, C):
+        env = {}
         for ch in range(C):
-            for i in range(n):
-                for j in range(n):
-                    if i == 0:
-                        g.add('%s_guard_%d_%d' % (pre, j, ch), args, guards[k])
-                    elif guards[k] is not guards[k - n * i]:
-                        raise shim.TraceError('the guard of plane %d changes between target planes' % j)
-                    k += 1
-        for i in range(n):
-            for ch in range(C):
+            for y in range(H):
+                for x in range(W):
+                    env['x_%d_%d_%d' % (ch, y, x)] = img[ch, y, x]
+        for y in range(H):
+            for x in range(W):
+                env['d_%d_%d' % (y, x)] = float(np.float32(dep[y, x]))
+        return env
+
+    for cls, tag in CLASSES:
+        for C, npl in CONFIGS:
+            for rep in range(2):
+                img = np.array([[[rng.randint(0, 256) / 256.0 for _ in range(W)] for _ in range(H)] for _ in range(C)])
+                dep = np.zeros((H, W))
                 for y in range(H):
                     for x in range(W):
-                        g.add('%s_target_%d_%d_%d_%d' % (pre, i, ch, y, x), args, me.targets[i, ch, y, x])
-    return g
+                        k = rng.randint(0, max(npl - 1, 0))
+                        dep[y, x] = min(1.0, max(0.0, (k + rng.uniform(-0.4, 0.4)) / max(npl - 1, 1)))
+                mult = rng.choice([1.0, 2.0, 0.5])
+                L = make_loss(cls, torch.tensor(img, dtype=torch.float32), torch.tensor(dep, dtype=torch.float32), npl, 'naive', 5, 0.25, mult)
+                targets, focus, dout = L.get_targets()
+                env = image_env(img, dep, C); env['mult'] = mult
+                pre = dname(tag, C, npl)
+                for y in range(H):
+                    for x in range(W):
+                        cmp('%s_q_%d_%d' % (pre, y, x), env, float(L.target_depth[y, x]))
+                        cmp('%s_gt_depth_%d_%d' % (pre, y, x), env, float(dout[y, x]))
+                        for ch in range(C):
+                            cmp('%s_focus_%d_%d_%d' % (pre, ch, y, x), env, float(L.focus_target[ch, y, x]))
+                            cmp('%s_gt_focus_%d_%d_%d' % (pre, ch, y, x), env, float(focus[ch, y, x]))
+                            for i in range(npl):
+                                cmp('%s_mask_%d_%d_%d_%d' % (pre, i, ch, y, x), env, float(L.masks[i, ch, y, x]))
+                                cmp('%s_target_%d_%d_%d_%d' % (pre, i, ch, y, x), env, float(L.targets[i, ch, y, x]))
+                                cmp('%s_gt_target_%d_%d_%d_%d' % (pre, i, ch, y, x), env, float(targets[i, ch, y, x]))
+    for C, N in SLICE_CONFIGS:
+        for rep in range(3):
+            img = np.array([[[rng.randint(0, 256) / 256.0 for _ in range(W)] for _ in range(H)] for _ in range(C)])
+            pos = [0.0] + sorted(rng.randint(1, 15) / 16.0 for _ in range(N - 1)) + [1.0]
+            dep = np.array([[rng.choice([0.0, 1.0, rng.randint(0, 16) / 16.0, rng.randint(0, 64) / 64.0]) for _ in range(W)] for _ in range(H)])
+            targets, masks = slice_fn(torch.tensor(img, dtype=torch.float32), torch.tensor(dep, dtype=torch.float32), pos)
+            env = image_env(img, dep, C)
+            env.update({'p_%d' % k: pos[k] for k in range(N + 1)})
+            pre = 'sl_c%dn%d' % (C, N)
+            for y in range(H):
+                for x in range(W):
+                    for ch in range(C):
+                        for i in range(N):
+                            cmp('%s_mask_%d_%d_%d_%d' % (pre, i, ch, y, x), env, float(masks[i, ch, y, x]))
+                            cmp('%s_target_%d_%d_%d_%d' % (pre, i, ch, y, x), env, float(targets[i, ch, y, x]))
+    # add_defocus_blur: the operator `blur k p` is evaluated with odak's own kernel builder and torch's conv2d
+    from odak.learn.tools import generate_2d_gaussian
+
+    def blur_fn(k, p):
+        def f(a, b, c, d):
+            ker = generate_2d_gaussian([BLUR_SIZE, BLUR_SIZE], [k, k])
+            ker = (ker / torch.sum(ker)).unsqueeze(0).unsqueeze(0)
+            y = torch.nn.functional.conv2d(torch.tensor([[[[a, b], [c, d]]]], dtype=torch.float32), ker, padding='same')
+            return float(y[0, 0, p // 2, p % 2])
+        return f
+    for dcls, dtag in DEFOCUS_TAGS:
+        for C, npl, empty in DEFOCUS_CONFIGS:
+            for rep in range(2):
+                img = np.array([[[rng.randint(1, 256) / 256.0 for _ in range(W)] for _ in range(H)] for _ in range(C)])
+                full = [j for j in range(npl) if j not in empty]
+                planes = list(full) + [rng.choice(full) for _ in range(H * W - len(full))]
+                rng.shuffle(planes)                    # every non-empty plane owns a pixel, the empty ones none
+                # depth values that round, floor and floor(x + 1/2) all send to plane k
+                dep = np.array([(k + (rng.uniform(0.05, 0.35) if k < npl - 1 else 0.0)) / (npl - 1) for k in planes]).reshape(H, W)
+                mult = rng.choice([1.0, 1.5, 0.5])
+                L = make_loss(dcls, torch.tensor(img, dtype=torch.float32), torch.tensor(dep, dtype=torch.float32), npl, 'defocus', BLUR_SIZE, 1.0, mult)
+                targets, focus, _ = L.get_targets()
+                on_path = all(bool((L.masks[j, ch] * torch.tensor(img[ch], dtype=torch.float32)).sum() > 0) == (j not in empty)
+                              for ch in range(C) for j in range(npl))
+                if not on_path:
+                    continue                           # this input does not follow the traced guard path
+                env = image_env(img, dep, C); env['mult'] = mult
+                for k in range(npl):
+                    for p in range(H * W):
+                        env['blur %d%%nat %d%%nat' % (k, p)] = blur_fn(k, p)
+                pre = dname(dtag, C, npl, empty)
+                for ch in range(C):
+                    for j in range(npl):
+                        n += 1
+                        if (g.evalf('%s_guard_%d_%d' % (pre, j, ch), env) > 0) != (j not in empty):
+                            bad += 1; log('self-check: guard off the traced path', pre, j, ch)
+                    for y in range(H):
+                        for x in range(W):
+                            cmp('%s_focus_%d_%d_%d' % (pre, ch, y, x), env, float(focus[ch, y, x]))
+                            for i in range(npl):
+                                cmp('%s_target_%d_%d_%d_%d' % (pre, i, ch, y, x), env, float(targets[i, ch, y, x]), 1e-5, 1e-6)
+    return bad, n
